@@ -790,7 +790,7 @@ def _worker(conn, tasks, repo):
     resource.setrlimit(resource.RLIMIT_AS, (6 << 30, 6 << 30))
     bases = {}
     spec = {(f, n): (fn, ikb, rkb) for f, n, fn, ikb, rkb in specials()}
-    work = tempfile.mkdtemp(prefix="verif-c11w-")
+    work = tempfile.mkdtemp(prefix="verif-c11w-", dir=os.environ.get("VERIF_C11_SCRATCH") or None)
     tracemalloc.start()
     try:
         for t in tasks:
@@ -849,6 +849,18 @@ def supervise(tasks, nproc=12, deadline=25.0):
     finished after ten times as much wall time - a run that sleeps or blocks) is killed and recorded as outcome "timeout".
     Processor time, not wall time: on a loaded machine a run that needs three seconds may take thirty.  Returns {tid: event}."""
     _TIMEOUTS.clear()
+    # workers that are killed (deadline, memory limit) cannot clean up after themselves: their scratch lives under one directory
+    # that is removed when the run ends
+    scratch = tempfile.mkdtemp(prefix="verif-c11-")
+    os.environ["VERIF_C11_SCRATCH"] = scratch
+    try:
+        return _supervise(tasks, nproc, deadline)
+    finally:
+        os.environ.pop("VERIF_C11_SCRATCH", None)
+        shutil.rmtree(scratch, ignore_errors=True)
+
+
+def _supervise(tasks, nproc, deadline):
     ctx = mp.get_context("fork")
     results = {}
     chunks = [tasks[i::nproc] for i in range(nproc)]
